@@ -12,7 +12,9 @@ from harness.oracle.idempotent import UNARY, extend, extend2
 from harness.oracle.jets import derivatives
 
 MODULE = 'Ndt.Props.C12'
-THEOREMS = ['Ndt.phi_injective', 'Ndt.phi1_add', 'Ndt.phi2_add', 'Ndt.phi1_sub', 'Ndt.phi2_sub', 'Ndt.phi1_neg', 'Ndt.phi2_neg',
+THEOREMS = ['Ndt.psi1_mul', 'Ndt.psi2_mul', 'Ndt.psi_injective', 'Ndt.psi1_powLoop', 'Ndt.psi2_powLoop', 'Ndt.psi_modsq', 'Ndt.psi1_inverse', 'Ndt.psi2_inverse',
+            'Ndt.psi1_pow_integer', 'Ndt.psi2_pow_integer', 'Ndt.pow_integer_reduces',
+            'Ndt.phi_injective', 'Ndt.phi1_add', 'Ndt.phi2_add', 'Ndt.phi1_sub', 'Ndt.phi2_sub', 'Ndt.phi1_neg', 'Ndt.phi2_neg',
             'Ndt.phi1_mul', 'Ndt.phi2_mul', 'Ndt.phi_conjugate', 'Ndt.phi1_exp', 'Ndt.phi2_exp', 'Ndt.phi1_sin', 'Ndt.phi2_sin',
             'Ndt.phi1_cos', 'Ndt.phi2_cos', 'Ndt.phi1_sinh', 'Ndt.phi2_sinh', 'Ndt.phi1_cosh', 'Ndt.phi2_cosh',
             'Ndt.phi1_expm1', 'Ndt.phi2_expm1', 'Ndt.log1p_z1_eq', 'Ndt.log1p_z1_is_extension', 'Ndt.reduces_to_complex',
@@ -47,24 +49,41 @@ def run(ctx):
     eng = ctx.engine('bicomplex.ring')
     cases = []
     for _ in range(ctx.budget(400, 4000)):
-        op = rng.choice(['add', 'sub', 'mul', 'neg', 'conj'])
+        op = rng.choice(['add', 'sub', 'mul', 'neg', 'conj', 'inv', 'powint', 'powint'])
         a = [dyad(rng) for _ in range(4)]
         b = [dyad(rng) for _ in range(4)]
+        if op == 'powint':
+            # the exponent; small Gaussian dyadics (k/4, |k| <= 8) so that non-negative powers up to 6 are exact in binary64
+            a = [Fraction(rng.randint(-8, 8), 4) for _ in range(4)]
+            b = rng.choice([0, 0, 1, 2, 3, 4, 5, 6, -1, -2, -3])
+        if op in ('inv', 'powint') and a[0] * a[0] - a[1] * a[1] + a[2] * a[2] - a[3] * a[3] == 0 and 2 * a[0] * a[1] + 2 * a[2] * a[3] == 0:
+            a[0] += 1           # z1^2 + z2^2 = 0: a zero divisor, outside the domain of the inverse
         cases.append((op, a, b))
-    lines = ['bc %s %s' % (op, ' '.join(q2s(v) for v in (a if op in ('neg', 'conj') else a + b))) for op, a, b in cases]
+
+    def line_of(op, a, b):
+        if op == 'powint':
+            return 'bc powint %d %s' % (b, ' '.join(q2s(v) for v in a))
+        return 'bc %s %s' % (op, ' '.join(q2s(v) for v in (a if op in ('neg', 'conj', 'inv') else a + b)))
+    lines = [line_of(op, a, b) for op, a, b in cases]
     out = run_driver(lines, 'C12r')
     for (op, a, b), line in zip(cases, out):
         eng['cases'] += 1
         ctx.count('bicomplex.ring', op)
         A = Bicomplex(complex(float(a[0]), float(a[1])), complex(float(a[2]), float(a[3])))
-        B = Bicomplex(complex(float(b[0]), float(b[1])), complex(float(b[2]), float(b[3])))
-        R = {'add': lambda: A + B, 'sub': lambda: A - B, 'mul': lambda: A * B, 'neg': lambda: -A, 'conj': lambda: A.conjugate()}[op]()
+        B = Bicomplex(complex(float(b[0]), float(b[1])), complex(float(b[2]), float(b[3]))) if op != 'powint' else None
+        with warnings.catch_warnings():
+            warnings.simplefilter('ignore')
+            R = {'add': lambda: A + B, 'sub': lambda: A - B, 'mul': lambda: A * B, 'neg': lambda: -A, 'conj': lambda: A.conjugate(),
+                 'inv': lambda: A ** -1, 'powint': lambda: A ** b}[op]()
         impl = [Fraction(float(np.real(R.z1))), Fraction(float(np.imag(R.z1))), Fraction(float(np.real(R.z2))), Fraction(float(np.imag(R.z2)))]
         model = [s2q(t) for t in line.split()]
         if impl == model:
             eng['exact'] += 1
+        elif (op == 'inv' or (op == 'powint' and b < 0)) and \
+                max(abs(float(x) - float(y)) for x, y in zip(impl, model)) <= 1e-12 * (1 + max(abs(float(y)) for y in model)):
+            eng['rounded'] += 1         # a division is involved: the float quotient is not exact
         else:
-            ctx.mismatch('bicomplex.ring', [op, list(map(str, a)), list(map(str, b))], list(map(str, impl)), list(map(str, model)))
+            ctx.mismatch('bicomplex.ring', [op, list(map(str, a)), str(b)], list(map(str, impl)), list(map(str, model)))
     ctx.sample({'engine': 'bicomplex.ring', 'line': lines[0], 'model': out[0]})
 
     # ---------------- failing-input search: every function / operator against the idempotent oracle --------------------
